@@ -585,6 +585,15 @@ def _parse_transf_v33(raw, system, max_bus):
 
             out['Bus'].append(param)
 
+            # CZ = 2: each winding-pair impedance is given on its own MVA base (SBASE1-2, SBASE2-3, SBASE3-1);
+            # refer all three to the system base before forming the star equivalent
+            if data[0][5] == 2:
+                for k_z, k_s in ((0, 2), (3, 5), (6, 8)):
+                    if data[1][k_s] != 0.0:
+                        scale = system.config.mva / data[1][k_s]
+                        data[1][k_z] *= scale
+                        data[1][k_z + 1] *= scale
+
             r = []
             x = []
             r.append((data[1][0] + data[1][6] - data[1][3])/2)
